@@ -96,6 +96,10 @@ func ldsNeedsPush(proxy *model.Proxy, req *model.PushRequest) bool {
 			// headless-only update, none of them need to trigger a push on their own.
 			headlessOnly = false
 		}
+		if config.Kind == kind.Gateway && proxy.IsAmbientEastWestGateway() {
+			// East-west gateway TLS passthrough listeners are built from proxy.MergedGateway.
+			return true
+		}
 		if !skippedLdsConfigs[proxy.Type].Contains(config.Kind) {
 			if config.Kind == kind.PeerAuthentication && config.Namespace != proxy.ConfigNamespace &&
 				config.Namespace != req.Push.Mesh.RootNamespace {
